@@ -254,6 +254,9 @@ func runC13(c *core.Ctx) {
 	}
 	c20VMPool(c, "R13d")
 	poolTypestate(c, "R13d")
+	if r12 := resolveC12(c); r12 != nil {
+		runR12eAs(c, r12, c.RepoFunctions(), "R13d") // a node is released (pooled) once: holders cleared on every release path
+	}
 	c.Floor("R13d", 25, "node pool and VM pool discipline")
 
 	// ---------------- R13e switches
